@@ -21,3 +21,29 @@ TABLE["C01"] = {
     "level_text": "Theorems: for all 64-bit (ori, target) and both build profiles the emitted branch, executed by an independent ISA fragment from any CPU state, lands exactly on target (or the encoder panicked and emitted nothing). The model is tied to patch_amd64.rs by calling the unmodified function on boundary-structured and random address pairs and comparing bytes; the landing predicate is also evaluated on the implementation's bytes.",
     "level_note": "Trusted: Lean kernel, the x86-64 ISA fragment, the shadow-crate build (source copied unmodified), the driver's parsing. Modelled not verified: all Rust code.",
 }
+
+ISA_A64 = "hand-written A64 ISA fragment (MOVZ, MOVK, BR, RET, B, NOP, ADRP, ADD imm) in Model/A64.lean, transcribed from the Arm ARM; cannot be validated against hardware in this sandbox"
+ISA_A32 = "hand-written A32/T32 fragment (LDR literal with Align(PC,4), BX interworking, Thumb NOP 46C0) in Model/A32.lean, transcribed from the Arm ARM; not validated against hardware"
+
+TABLE["C15"] = {
+    "pipelines": [
+        {"name": "enc-arm", "cmd": ["enc-arm"], "n_quick": 4000, "n_thorough": 200000, "timeout_thorough": 3000},
+    ],
+    "trusted_base": TB_COMMON + [ISA_A64, "the arm64 sources are compiled for the x86-64 host with their first-line cfg stripped (macOS variant: target_os=\"macos\" replaced by all() in the two arm64 files)"],
+    "rule": "emitters per field value; trampoline: each 16-bit chunk in each of 4 positions (every 257th value quick, exhaustive thorough) plus PRNG addresses; entry: 7 in-page offsets x displacements around +-128MiB, +-512MiB, +-2GiB, a band of word-aligned displacements across the +-128MiB limits, PRNG; macOS long jump: PRNG pc/target around the +-128MiB and +-4GiB limits. Distinct by the input part of the line; lines tagged a32* belong to C16 and are ignored here",
+    "assumptions": ["A64 ISA fragment as transcribed", "user-space addresses below 2^63, instruction addresses word aligned (hypotheses of the theorems)"],
+    "filter_prefix": ["a64"],
+    "level_text": "Theorems for all 64-bit fake addresses / all word-aligned displacements: trampoline words decode to movz/movk x3/br x9 building exactly the fake address, entry word is a B landing exactly on the trampoline or the install is refused, macOS long form reaches the target within ADRP's range, only x9/x16 (x0 for the boolean) written. The emitter model is built from bit sequences and constants regenerated from the Rust source; the unmodified arm64 sources are run on the host and compared byte for byte, and the decode-and-follow predicate is evaluated on the implementation's bytes.",
+    "level_note": "Trusted: Lean kernel, the A64 fragment (manual transcription, not hardware-validated), translator, shadow build. Not modelled: dsb/isb, macOS patch_function.",
+}
+TABLE["C16"] = {
+    "pipelines": [
+        {"name": "enc-arm", "cmd": ["enc-arm"], "n_quick": 4000, "n_thorough": 200000, "timeout_thorough": 3000},
+    ],
+    "trusted_base": TB_COMMON + [ISA_A32, "patch_arm.rs compiled for the x86-64 host (cfg stripped), arenas below 4 GiB so that `as u32` casts are faithful"],
+    "rule": "three entry cases (A32; T32 at 0 mod 4; T32 at 2 mod 4) x fake state x page-end offsets + PRNG (entry offset, 32-bit fake address); distinct by (src, target); lines tagged a64* belong to C15 and are ignored here",
+    "assumptions": ["A32/T32 fragment as transcribed", "AAPCS32 callee-saved set r4-r11, sp"],
+    "filter_prefix": ["a32"],
+    "level_text": "Theorems for all memories, all entry and fake addresses in each of the three entry cases: the word the literal load reads is the fake's address and BX reaches it in the right state; exactly 12 bytes at the Thumb-stripped entry are written. The callee-saved clause is proved FALSE of the code (C16_callee_full_false, witness replayed on the host-compiled bytes) and reported as known finding F6; the partial theorem bounds the damage to r9 / r7.",
+    "level_note": "Trusted: Lean kernel, the A32/T32 fragment (not hardware-validated), translator, shadow build.",
+}
